@@ -17,7 +17,7 @@ func Parse(str string) (*LogQLScript, error) {
 }
 
 func ParseSeries(str string) (*LogQLScript, error) {
-	promRe := regexp.MustCompile("^([a-zA-Z_]\\w*)\\s*($|\\{.+$)")
+	promRe := regexp.MustCompile("^([a-zA-Z_:][a-zA-Z0-9_:]*)\\s*($|\\{.+$)")
 	promExp := promRe.FindSubmatch([]byte(str))
 	if len(promExp) > 0 {
 		left := string(promExp[2])
